@@ -22,8 +22,9 @@ Exts  == Kinds \cup {"htm", "none", "dat"}
 OwnExt(k, e) == e = k \/ (k = "html" /\ e = "htm")
 Supported(e) == e \in Kinds \cup {"htm"}
 
-VARIABLES mode, kind, ext, ecase, order, decoy, epub
-vars == <<mode, kind, ext, ecase, order, decoy, epub>>
+VARIABLES mode, kind, ext, ecase, order, decoy, epub, tgt
+vars == <<mode, kind, ext, ecase, order, decoy, epub, tgt>>
+Ooxml == {"docx", "xlsx", "pptx"}
 
 \* an EPUB for the DRM table: which resources are listed in encryption.xml and how
 Algos == {"idpf-obf", "adobe-obf", "aes128", "aes256", "unknown"}
@@ -41,7 +42,10 @@ Init == \/ /\ mode = "admit" /\ kind \in Kinds /\ ext \in Exts /\ ecase \in {"lo
                           ELSE {"canonical"})
            /\ decoy \in (IF kind \in Zips THEN {"none", "word", "xl", "ppt"} ELSE {"none"})
            /\ epub = NoEpub
-        \/ /\ mode = "drm" /\ kind = "epub" /\ ext = "epub" /\ ecase = "lower" /\ order = "canonical" /\ decoy = "none"
+           \* how the package relationship names the main part of an OOXML document: relative ("xl/workbook.xml"),
+           \* absolute ("/xl/workbook.xml") or with a dot segment ("./xl/workbook.xml") - all three are the same part
+           /\ tgt \in (IF kind \in Ooxml THEN {"rel", "abs", "dot"} ELSE {"rel"})
+        \/ /\ mode = "drm" /\ kind = "epub" /\ ext = "epub" /\ ecase = "lower" /\ order = "canonical" /\ decoy = "none" /\ tgt = "rel"
            /\ epub \in {e \in EpubSpace : (e.rights /\ e.enc # {}) \/ e.rfirst}      \* the order only exists when both files do
 Next == FALSE /\ UNCHANGED vars
 Spec == Init /\ [][Next]_vars
